@@ -40,6 +40,15 @@ error (EINTR/EIO/...: the loop logs and leaves, the content stays in the pipe fo
 (c) callback scripts act on events of ANY loop (the call is made on the thread of the loop that runs the callback).
 (d) signal ids 6.. stand for SIGRTMAX (valid), 65, INT_MAX, 0, a negative number and 32 (reserved by glibc): `sigaction`
 fails with EINVAL on all but the first (`sigValid`).
+Round 5: (a) `Disp.flags` is a bit set (1 SA_RESTART, 2 SA_NODEFER, 4 SA_RESETHAND, 8 SA_ONSTACK, 16 SA_NOCLDSTOP,
+32 SA_NOCLDWAIT) and `Disp.mask` the 64-bit kernel `sa_mask` (bit k = signal number k+1; the kernel clears SIGKILL / SIGSTOP:
+`kstore`).  The kernel's SA_RESETHAND: a DIRECT delivery to a user handler resets the handler to SIG_DFL (Linux keeps flags and
+mask); a delivery to tbox's handler chains the saved handler and resets nothing: the saved disposition is restored whole.
+`handlerEnv`: what the invoked user handler sees (own signal blocked, extra mask, alternate stack) - under tbox's handler
+(SA_SIGINFO only, empty mask) the saved disposition's SA_NODEFER / sa_mask / SA_ONSTACK are NOT in force.
+(b) the pipe is a ring of pages: a 4-byte write merges into the last page or takes a new slot, a slot is released only when
+wholly read, so with `head l` numbers of the first page already consumed only `capOf - head` fit (`hd`; back to 0 when the
+pipe runs empty).
 Not modelled (see props/C04/plugin.py ASSUMPTIONS): `SA_SIGINFO` combined with `SIG_IGN`; deliveries concurrent with a
 subscription change are modelled at step level in `Conc.lean`.
 -/
@@ -53,9 +62,21 @@ deriving DecidableEq, Repr
 structure Disp where
   kind    : Kind := .dfl
   siginfo : Bool := false    -- SA_SIGINFO
-  flags   : Nat := 0         -- the other sa_flags bits (opaque)
-  mask    : Nat := 0         -- sa_mask (opaque)
+  flags   : Nat := 0         -- the other sa_flags bits: 1 RESTART, 2 NODEFER, 4 RESETHAND, 8 ONSTACK, 16 NOCLDSTOP, 32 NOCLDWAIT
+  mask    : Nat := 0         -- sa_mask as the kernel keeps it: bit k = signal number k + 1 (64 bits)
 deriving DecidableEq, Repr
+
+def Disp.restart (d : Disp) : Bool := d.flags.testBit 0
+def Disp.noDefer (d : Disp) : Bool := d.flags.testBit 1
+def Disp.resetHand (d : Disp) : Bool := d.flags.testBit 2
+def Disp.onStack (d : Disp) : Bool := d.flags.testBit 3
+
+/-- all 64 signals but SIGKILL (9) and SIGSTOP (19): the kernel never blocks those two (`sigdelsetmask`) -/
+def maskable : Nat := 2 ^ 64 - 1 - 2 ^ 8 - 2 ^ 18
+/-- `sa_mask` as the kernel stores it -/
+def normMask (m : Nat) : Nat := m &&& maskable
+/-- `sigaction(g, &d, …)`: what the kernel keeps of d -/
+def kstore (d : Disp) : Disp := { d with mask := normMask d.mask }
 
 /-- a value-initialised `struct sigaction` (what `_signal_ctxs_[signo]` creates) -/
 def zeroDisp : Disp := {}
@@ -139,11 +160,19 @@ structure State where
   calls   : List (Nat × Nat) := []      -- (handler id, signo)
   cbs     : List Cb := []
   small   : Bool := false               -- the signal pipes are shrunk to one page (`F_SETPIPE_SZ 4096`)
+  head    : Nat → Nat := fun _ => 0     -- numbers of the pipe's first page already read (meaningful while the pipe is non-empty)
 
 def init : State := {}
 
 /-- how many 4-byte signal numbers a signal pipe holds (64 KiB by default, one page when shrunk) -/
 def capOf (s : State) : Nat := if s.small then 1024 else 16384
+
+/-- numbers per page of a pipe -/
+def pageLen : Nat := 1024
+/-- offset of the first pending number in its page; an empty pipe has released every page -/
+def hd (s : State) (l : Nat) : Nat := if s.pipe l = [] then 0 else s.head l
+/-- `head` with the entries of empty pipes reset -/
+def normHead (s : State) : Nat → Nat := fun l => hd s l
 
 def subsOf (s : State) (l g : Nat) : List Nat := ((s.subs l).find g).getD []
 def ctxOf (s : State) (g : Nat) : Ctx := (s.ctxs g).getD {}
@@ -261,7 +290,7 @@ def newEv (s : State) (l : Nat) (script : List Act) : State :=
 
 /-- the user calls `sigaction(g, d, nullptr)`; not while tbox's handler is installed; EINVAL for SIGKILL/SIGSTOP -/
 def setDisp (s : State) (g : Nat) (d : Disp) : State × Bool :=
-  if (s.os g).kind = .tbox || !sigValid g then (s, false) else ({ s with os := upd s.os g d }, true)
+  if (s.os g).kind = .tbox || !sigValid g then (s, false) else ({ s with os := upd s.os g (kstore d) }, true)
 
 /-- `for (int fd : write_fds) write(fd, &signo, sizeof signo)` — `write_fds` is a set: one write per loop -/
 def appendPipes (pipe : Nat → List Nat) (g : Nat) (fds : List Nat) : Nat → List Nat :=
@@ -271,7 +300,19 @@ inductive RaiseOut where | killed | ignored | handled
 deriving DecidableEq, Repr
 
 /-- the handler's `write(fd, &signo, 4)` to loop l's pipe succeeds: no injected error and the pipe is not full -/
-def wrOk (s : State) (wf : List Nat) (l : Nat) : Bool := !wf.contains l && decide ((s.pipe l).length < capOf s)
+def wrOk (s : State) (wf : List Nat) (l : Nat) : Bool := !wf.contains l && decide (hd s l + (s.pipe l).length < capOf s)
+
+/-- the kernel runs a user handler with SA_RESETHAND: the handler (only) is reset to SIG_DFL -/
+def kReset (d : Disp) : Disp := if d.resetHand then { d with kind := .dfl } else d
+
+/-- what a user handler invoked for g sees: (g itself is blocked, the other blocked signals, it runs on the alternate stack).
+Installed directly: the kernel applies ITS disposition; chained by tbox's handler: tbox's (no SA_NODEFER, empty mask, no
+SA_ONSTACK) - the saved disposition's settings are not in force. -/
+def handlerEnv (s : State) (g : Nat) : Bool × Nat × Bool :=
+  match (s.os g).kind with
+  | .tbox => (true, 0, false)
+  | _ => (!(s.os g).noDefer, (s.os g).mask, (s.os g).onStack)
+
 
 /-- delivery of signal g to the process; `wf` = the loops whose pipe write is answered with an error by the kernel
 (EAGAIN / EINTR / EIO ... — the handler does not look at the result) -/
@@ -279,14 +320,14 @@ def raiseW (s : State) (g : Nat) (wf : List Nat) : State × RaiseOut :=
   match (s.os g).kind with
   | .dfl => (s, .killed)            -- default action: terminate (the harness does not raise)
   | .ign => (s, .ignored)
-  | .handler h => ({ s with calls := (h, g) :: s.calls }, .handled)
+  | .handler h => ({ s with calls := (h, g) :: s.calls, os := upd s.os g (kReset (s.os g)) }, .handled)
   | .tbox =>
     -- SignalHandlerFunc: `_signal_ctxs_[signo]`, old handler first, then one write per subscribed loop
     let c := ctxOf s g
     let calls := match c.old.kind with
       | .handler h => (h, g) :: s.calls
       | _ => s.calls
-    ({ s with ctxs := upd s.ctxs g (some c), calls := calls,
+    ({ s with ctxs := upd s.ctxs g (some c), calls := calls, head := normHead s,
               pipe := appendPipes s.pipe g (c.fds.filter (wrOk s wf)) }, .handled)
 
 /-- delivery of signal g, every write answered by the real pipe -/
@@ -348,7 +389,7 @@ def passLoop (fx : Fixes) (l : Nat) (ord : List Nat) : Nat → State → State
     match s.pipe l with
     | [] => s
     | items =>
-      let s1 := { s with pipe := upd s.pipe l (items.drop 10) }
+      let s1 := { s with pipe := upd s.pipe l (items.drop 10), head := upd s.head l ((hd s l + 10) % pageLen) }
       passLoop fx l ord fuel (passChunk fx s1 l ord (items.take 10))
 
 /-- one pass of loop l -/
@@ -376,7 +417,7 @@ def passLoopC (fx : Fixes) (l : Nat) (ord : List Nat) : List (Option Nat) → Na
     | items =>
       let n := nextLen cs
       if n = 0 then s else      -- rsize <= 0, errno != EAGAIN: LogWarn, break — nothing is consumed
-      let s1 := { s with pipe := upd s.pipe l (items.drop n) }
+      let s1 := { s with pipe := upd s.pipe l (items.drop n), head := upd s.head l ((hd s l + n) % pageLen) }
       passLoopC fx l ord cs.tail fuel (passChunk fx s1 l ord (items.take n))
 
 def passC (fx : Fixes) (s : State) (l : Nat) (ord : List Nat) (cs : List (Option Nat)) : State :=
